@@ -250,7 +250,13 @@ fn f_eval(case: &Case, x: &[f64]) -> Vec<f64> {
                     .collect()
             }
         }
-        Func::SqPlus1 => x.iter().map(|v| v * v + 1.0).collect(),
+        Func::SqPlus1 => {
+            if cm {
+                x.chunks(2).flat_map(|z| [z[0] * z[0] - z[1] * z[1] + 1.0, 2.0 * z[0] * z[1]]).collect()
+            } else {
+                x.iter().map(|v| v * v + 1.0).collect()
+            }
+        }
         Func::Exp => {
             if cm {
                 let e = Z(x[0], x[1]).exp();
@@ -332,6 +338,9 @@ fn j_eval(case: &Case, x: &[f64]) -> Option<Vec<f64>> {
             let mut out = vec![0.0; n * n * w];
             for i in 0..n {
                 out[(i * n + i) * w] = 2.0 * x[i * w];
+                if cm {
+                    out[(i * n + i) * w + 1] = 2.0 * x[i * w + 1];
+                }
             }
             Some(out)
         }
@@ -481,8 +490,14 @@ fn budget_for(case: &Case, max_iter: usize) -> usize {
 
 /// One call of the real solver from `guess` with iteration limit `max_iter` on a
 /// freshly constructed Newton object.
+type PlanStep = (Vec<f64>, usize, f64, f64); // guess, max_iter, delta, tol
+
+fn step_of(case: &Case, guess: &[f64], max_iter: usize) -> PlanStep {
+    (guess.to_vec(), max_iter, case.delta, case.tol)
+}
+
 fn solve_once(case: &Case, guess: &[f64], max_iter: usize) -> Solved {
-    solve_session(case, &[(guess.to_vec(), max_iter)]).pop().unwrap()
+    solve_session(case, &[step_of(case, guess, max_iter)]).pop().unwrap()
 }
 
 fn fresh_rec(case: &Case, max_iter: usize) -> Rec {
@@ -497,7 +512,7 @@ fn finish(rec: &RefCell<Rec>, result: Result<(bool, Vec<f64>), String>, params_i
 /// A session: ONE Newton object, reconfigured through its public setters
 /// (`iterations`, `guess`) before each of the planned solver calls. The script
 /// (evaluation counters, history) is rewound before every call.
-fn solve_session(case: &Case, plan: &[(Vec<f64>, usize)]) -> Vec<Solved> {
+fn solve_session(case: &Case, plan: &[PlanStep]) -> Vec<Solved> {
     let rec = RefCell::new(Rec::default());
     let n = case.n;
     let mut out = Vec::with_capacity(plan.len());
@@ -505,10 +520,10 @@ fn solve_session(case: &Case, plan: &[(Vec<f64>, usize)]) -> Vec<Solved> {
         Entry::F64 => {
             let f = |x: f64| -> f64 { env_f(case, &rec, &[x])[0] };
             let mut nw = Newton::<f64>::new(plan[0].0[0]);
-            nw.tolerance(case.tol);
-            nw.delta(case.delta);
-            for (step, (guess, max_iter)) in plan.iter().enumerate() {
+            for (step, (guess, max_iter, delta, tol)) in plan.iter().enumerate() {
                 if step == 0 || plan[step - 1] != plan[step] {
+                    nw.tolerance(*tol);
+                    nw.delta(*delta);
                     nw.iterations(*max_iter);
                     nw.guess(guess[0]);
                 }
@@ -517,7 +532,7 @@ fn solve_session(case: &Case, plan: &[(Vec<f64>, usize)]) -> Vec<Solved> {
                 let r = catch(|| nw.solve(&f));
                 let after = nw.parameters();
                 let intact = before.0.to_bits() == after.0.to_bits() && before.1.to_bits() == after.1.to_bits() && before.2 == after.2 && before.3.to_bits() == after.3.to_bits()
-                    && after.0.to_bits() == case.tol.to_bits() && after.1.to_bits() == case.delta.to_bits() && after.2 == *max_iter && after.3.to_bits() == guess[0].to_bits();
+                    && after.0.to_bits() == tol.to_bits() && after.1.to_bits() == delta.to_bits() && after.2 == *max_iter && after.3.to_bits() == guess[0].to_bits();
                 let res = r.map(|res| match res {
                     Ok(x) => (true, vec![x]),
                     Err(x) => (false, vec![x]),
@@ -531,10 +546,10 @@ fn solve_session(case: &Case, plan: &[(Vec<f64>, usize)]) -> Vec<Solved> {
                 Cmplx::new(o[0], o[1])
             };
             let mut nw = Newton::<Cmplx>::new(Cmplx::new(plan[0].0[0], plan[0].0[1]));
-            nw.tolerance(case.tol);
-            nw.delta(case.delta);
-            for (step, (guess, max_iter)) in plan.iter().enumerate() {
+            for (step, (guess, max_iter, delta, tol)) in plan.iter().enumerate() {
                 if step == 0 || plan[step - 1] != plan[step] {
+                    nw.tolerance(*tol);
+                    nw.delta(*delta);
                     nw.iterations(*max_iter);
                     nw.guess(Cmplx::new(guess[0], guess[1]));
                 }
@@ -544,7 +559,7 @@ fn solve_session(case: &Case, plan: &[(Vec<f64>, usize)]) -> Vec<Solved> {
                 let after = nw.parameters();
                 let intact = before.0.to_bits() == after.0.to_bits() && before.1.to_bits() == after.1.to_bits() && before.2 == after.2
                     && before.3.real.to_bits() == after.3.real.to_bits() && before.3.imag.to_bits() == after.3.imag.to_bits()
-                    && after.0.to_bits() == case.tol.to_bits() && after.1.to_bits() == case.delta.to_bits() && after.2 == *max_iter
+                    && after.0.to_bits() == tol.to_bits() && after.1.to_bits() == delta.to_bits() && after.2 == *max_iter
                     && after.3.real.to_bits() == guess[0].to_bits() && after.3.imag.to_bits() == guess[1].to_bits();
                 let res = r.map(|res| match res {
                     Ok(z) => (true, vec![z.real, z.imag]),
@@ -557,10 +572,10 @@ fn solve_session(case: &Case, plan: &[(Vec<f64>, usize)]) -> Vec<Solved> {
             let f = |x: Vec64| -> Vec64 { Vector::<f64>::create(env_f(case, &rec, &x.vec)) };
             let j = |x: Vec64| -> Mat64 { to_mat(n, &env_j(case, &rec, &x.vec)) };
             let mut nw = Newton::<Vec64>::new(Vector::<f64>::create(plan[0].0.clone()));
-            nw.tolerance(case.tol);
-            nw.delta(case.delta);
-            for (step, (guess, max_iter)) in plan.iter().enumerate() {
+            for (step, (guess, max_iter, delta, tol)) in plan.iter().enumerate() {
                 if step == 0 || plan[step - 1] != plan[step] {
+                    nw.tolerance(*tol);
+                    nw.delta(*delta);
                     nw.iterations(*max_iter);
                     nw.guess(Vector::<f64>::create(guess.clone()));
                 }
@@ -577,10 +592,10 @@ fn solve_session(case: &Case, plan: &[(Vec<f64>, usize)]) -> Vec<Solved> {
             let f = |z: Vector<Cmplx>| -> Vector<Cmplx> { to_cvec(&env_f(case, &rec, &from_cvec(&z))) };
             let j = |z: Vector<Cmplx>| -> Matrix<Cmplx> { to_cmat(n, &env_j(case, &rec, &from_cvec(&z))) };
             let mut nw = Newton::<Vector<Cmplx>>::new(to_cvec(&plan[0].0));
-            nw.tolerance(case.tol);
-            nw.delta(case.delta);
-            for (step, (guess, max_iter)) in plan.iter().enumerate() {
+            for (step, (guess, max_iter, delta, tol)) in plan.iter().enumerate() {
                 if step == 0 || plan[step - 1] != plan[step] {
+                    nw.tolerance(*tol);
+                    nw.delta(*delta);
                     nw.iterations(*max_iter);
                     nw.guess(to_cvec(guess));
                 }
@@ -644,6 +659,7 @@ fn dist_to_root(case: &Case, x: &[f64]) -> Option<f64> {
             };
             Some(near(a).min(near(b)))
         }
+        Func::SqPlus1 if cm => Some(x.chunks(2).map(|z| z[0].hypot(z[1] - 1.0).min(z[0].hypot(z[1] + 1.0))).fold(0.0, |m: f64, d| if d.is_nan() { f64::NAN } else { m.max(d) })),
         Func::DiagDom { root, .. } => {
             if cm {
                 Some(x.chunks(2).zip(root.chunks(2)).map(|(a, b)| (a[0] - b[0]).hypot(a[1] - b[1])).fold(0.0, f64::max))
@@ -801,8 +817,20 @@ fn gen_poly_real(rng: &mut Rng) -> (Vec<f64>, f64, f64) {
         let last = *roots.last().unwrap();
         roots.push(last + d + rng.uniform(0.0, 1.2));
     }
-    let scale = rng.uniform(0.5, 2.0) * if rng.chance(0.5) { -1.0 } else { 1.0 };
+    let scale = poly_scale(rng);
     (roots, scale, d)
+}
+
+/// Newton's iterates and the |dx| stopping test are invariant under scaling f by a constant:
+/// 30 % of the polynomials are scaled by up to 1e+-10 (a derivative guard with an absolute
+/// threshold, say, would break the in-basin guarantee only there).
+fn poly_scale(rng: &mut Rng) -> f64 {
+    let sign = if rng.chance(0.5) { -1.0 } else { 1.0 };
+    if rng.chance(0.3) {
+        sign * log_uniform(rng, 1e-10, 1e10)
+    } else {
+        sign * rng.uniform(0.5, 2.0)
+    }
 }
 
 fn gen_poly_cmplx(rng: &mut Rng) -> (Vec<f64>, f64, f64) {
@@ -818,7 +846,7 @@ fn gen_poly_cmplx(rng: &mut Rng) -> (Vec<f64>, f64, f64) {
             roots.push(im);
         }
     }
-    let scale = rng.uniform(0.5, 2.0) * if rng.chance(0.5) { -1.0 } else { 1.0 };
+    let scale = poly_scale(rng);
     (roots, scale, d)
 }
 
@@ -958,7 +986,15 @@ impl C17 {
             }
             Cfg::Anywhere => {
                 let max_iter = rng.urange(0, 50);
-                let (func, guess) = if !entry.system() {
+                let (func, guess) = if cm && frng.chance(0.3) {
+                    // z^2 + 1 componentwise: roots +-i; singular at 0, chaotic on the real axis
+                    let guess: Vec<f64> = (0..n).flat_map(|_| match grng.below(4) {
+                        0 => [0.0, 0.0],
+                        1 => [grng.uniform(-3.0, 3.0), 0.0],
+                        _ => [grng.uniform(-3.0, 3.0), grng.uniform(-3.0, 3.0)],
+                    }).collect();
+                    (Func::SqPlus1, guess)
+                } else if !entry.system() {
                     if cm {
                         let (roots, scale, _) = gen_poly_cmplx(&mut frng);
                         (Func::Poly { roots, scale }, vec![grng.uniform(-6.0, 6.0), grng.uniform(-6.0, 6.0)])
@@ -1092,7 +1128,7 @@ impl Prop for C17 {
             rh.f64(*g);
         }
         let repeats = if case.cfg == Cfg::InBasin { 2 + (rh.finish() % 11) as usize } else { 2 + (rh.finish() % 3) as usize };
-        let plan: Vec<(Vec<f64>, usize)> = (0..repeats).map(|_| (case.guess.clone(), k)).collect();
+        let plan: Vec<PlanStep> = (0..repeats).map(|_| step_of(case, &case.guess, k)).collect();
         let mut session = solve_session(case, &plan);
         let later: Vec<Solved> = session.split_off(1);
         let s1 = session.pop().unwrap();
@@ -1212,7 +1248,10 @@ impl Prop for C17 {
         // ---- config B: Ok implies near a root
         if case.cfg == Cfg::Anywhere && ok1 {
             if let Some(d) = dist_to_root(case, &x1) {
-                let bound = if e.system() {
+                let bound = if let Func::SqPlus1 = case.func {
+                    // |z^2+1| <= tol (systems) or |dx| <= tol (scalar): within tol of +-i, generously 5 tol
+                    5.0 * case.tol + 1e-10
+                } else if e.system() {
                     2.0 * case.tol / diag_margin(case, if e.cmplx() { 1.0 } else { 1.0 }).max(1e-3) * 1.01 + 1e-10 * scale
                 } else {
                     let deg = if let Func::Poly { roots, .. } = &case.func { if e.cmplx() { roots.len() / 2 } else { roots.len() } } else { 1 };
@@ -1233,10 +1272,29 @@ impl Prop for C17 {
             stats.count("probe.root_free_checked");
         }
 
+        // ---- oracle 5b: an object that has already solved, then given another delta / tolerance through
+        // its setters, answers exactly like a freshly built object with that configuration
+        {
+            let delta2 = if case.delta > 1e-7 { 1e-8 } else { 1e-6 };
+            let tol2 = (case.tol * 100.0).min(1e-3);
+            let mut sess = solve_session(case, &[step_of(case, &case.guess, k), (case.guess.clone(), k, delta2, tol2)]);
+            let reconf = sess.pop().unwrap();
+            let fresh = solve_session(case, &[(case.guess.clone(), k, delta2, tol2)]).pop().unwrap();
+            stats.steps += (reconf.f_calls + reconf.j_calls + fresh.f_calls + fresh.j_calls) as u64;
+            if !reconf.params_intact || !same_result(&reconf.result, &fresh.result) || reconf.hist != fresh.hist {
+                return violation(
+                    "replay-differs",
+                    &format!("{en}:reconfigure"),
+                    format!("{}: after solve(), delta({delta2:e}) and tolerance({tol2:e}), solve() answers {} ({} evals); a fresh object with that configuration answers {} ({} evals)", e.name(), fmt_res(&reconf.result), reconf.f_calls, fmt_res(&fresh.result), fresh.f_calls),
+                );
+            }
+            stats.count("probe.reconfigured_object_checked");
+        }
+
         // ---- oracle 3: failure carries the last iterate (restart composition)
         if !index_faults && !ok1 && k <= 50 {
             // one object, reconfigured through its setters between the calls ...
-            let mut sess = solve_session(case, &[(case.guess.clone(), k), (x1.clone(), 1), (case.guess.clone(), k + 1)]);
+            let mut sess = solve_session(case, &[step_of(case, &case.guess, k), step_of(case, &x1, 1), step_of(case, &case.guess, k + 1)]);
             let longer = sess.pop().unwrap();
             let cont = sess.pop().unwrap();
             // ... must behave like freshly constructed objects
@@ -1423,7 +1481,7 @@ impl Prop for C17 {
     fn required_probes(&self, _tier: Tier) -> Vec<&'static str> {
         vec![
             "max_iter_zero", "dimension_1", "dimension_6_plus", "nan_propagated_to_result", "fault_on_first_evaluation", "fault_inside_jacobian_column", "fault_on_last_evaluation",
-            "in_basin_converged", "anywhere_ok_checked", "root_free_checked", "restart_composition_checked", "one_step_checked",
+            "in_basin_converged", "anywhere_ok_checked", "reconfigured_object_checked", "root_free_checked", "restart_composition_checked", "one_step_checked",
             "f64_ok_reached", "f64_err_reached", "cmplx_ok_reached", "cmplx_err_reached", "vec_fd_ok_reached", "vec_fd_err_reached", "vec_jac_ok_reached", "vec_jac_err_reached",
             "cvec_fd_ok_reached", "cvec_fd_err_reached", "cvec_jac_ok_reached", "cvec_jac_err_reached",
         ]
